@@ -375,8 +375,10 @@ def run_scenario(scen, keep_events=False):
         inc = list(opts['inc']) + ([asmsim.DEFINITIONS_DIR] if opts['defs'] else [])
         ref = asmsim.run_api(ref_fs, {'target': scen['input'], 'compress': opts['compress'], 'include_dirs': inc}, core.EventLog(0))
         if scen.get('bad_cli'):
-            res.violate('exit-zero-on-failure', 'cli-validation', 'invalid command line (%s) but the run exited 0; argv=%r' % (scen['bad_cli'], scen['argv']))
-        elif inject and inject['kind'] == 'pass' and x['inject_fired']:
+            # whether an unusable -i directory or a missing input is fatal is the tool's decision; if it carries on, the
+            # ordinary success oracle below judges what it wrote against the API on the same input
+            res.observe('bad-cli-accepted:' + scen['bad_cli'])
+        if inject and inject['kind'] == 'pass' and x['inject_fired']:
             res.violate('exit-zero-on-failure', 'injected', 'a failure was raised inside %s but the run exited 0' % inject['pass'])
         elif not ref['ok']:
             res.violate('exit-zero-on-failure', 'program-refused', 'the assembler refuses this program through the API (%s: %s) but the CLI exited 0; argv=%r'
